@@ -224,7 +224,7 @@ def build_driver():
     if old != digest or not os.path.exists(drv):
         shutil.copy(src_ml, os.path.join(OCAML, 'model.ml'))
         shutil.copy(os.path.join(COQ, 'model.mli'), os.path.join(OCAML, 'model.mli'))
-        rc, out = sh("ocamlfind ocamlopt -package zarith -linkpkg -O2 -w -a model.mli model.ml driver.ml -o driver",
+        rc, out = sh("ocamlfind ocamlopt -package zarith,str -linkpkg -O2 -w -a model.mli model.ml driver.ml -o driver",
                      cwd=OCAML, timeout=600)
         if rc != 0:
             res = Failure('build', 'ocaml driver', out)
